@@ -413,9 +413,13 @@ def completed_flags(ctx, P):
         n += 1
         q = rules.qual(ci, fn)
         ob.ok("%s:%s" % (q, kw.get("completed")), "%s: %s" % (q, unparse(call)))
-        if fn.name in want_false:
+        if rules.effective_names(P, ci, fn) & want_false:
             if kw.get("completed") != "False":
                 ctx.violation(ob, "R12.completed-flag", q, unparse(call), "completed-not-false", "a rejected / baulking / reneging customer has not completed its journey: completed=False", loc(call))
         elif "completed" in kw or len(call.args) > 1:
             ctx.violation(ob, "R12.completed-flag", q, unparse(call), "completed-flag-on-ordinary-handover", "ordinary hand-overs must not override the completion flag", loc(call))
-    ctx.floor("accept call sites", n, 5)
+    ctx.floor("accept call sites", n, 3)
+    roots = set()
+    for ci, fn, call in rules.calls_named(P, "accept"):
+        roots |= rules.effective_names(P, ci, fn) & (want_false | {"release", "send_individual"})
+    ctx.floor("hand-over roots with an accept call site", len(roots), 5)
